@@ -14,7 +14,7 @@ use crate::{ensure, fail};
 use proptest::prelude::*;
 use serde::{Deserialize, Serialize};
 use std::collections::{BTreeMap, BTreeSet};
-use yrs::{Any, Map, Out, Transact, Xml, XmlFragment, XmlOut};
+use yrs::{Any, Map, Out, ReadTxn, Transact, Xml, XmlFragment, XmlOut};
 
 #[derive(Clone, Debug, Serialize, Deserialize)]
 pub enum MStep {
@@ -22,6 +22,9 @@ pub enum MStep {
     Set { r: u8, c: u8, key: u8, nested: bool },
     Remove { r: u8, c: u8, key: u8 },
     Clear { r: u8, c: u8 },
+    /// write into the nested map that the key currently shows on this replica (if it shows one):
+    /// content that arrives in a subtree which another replica removes or overwrites concurrently
+    Inner { r: u8, c: u8, key: u8 },
     /// deliver a causally ready update
     Deliver { to: u8, which: u16, v2: bool },
     /// bring `to` up to date with everything `from` has (causal order)
@@ -217,6 +220,7 @@ fn mstep_strategy(n: u8) -> BoxedStrategy<MStep> {
         8 => (0..n, 0u8..3, 0u8..3, prop::bool::weighted(0.2)).prop_map(|(r, c, key, nested)| MStep::Set { r, c, key, nested }),
         4 => (0..n, 0u8..3, 0u8..3).prop_map(|(r, c, key)| MStep::Remove { r, c, key }),
         1 => (0..n, 0u8..2).prop_map(|(r, c)| MStep::Clear { r, c }),
+        2 => (0..n, 0u8..2, 0u8..3).prop_map(|(r, c, key)| MStep::Inner { r, c, key }),
         6 => (0..n, any::<u16>(), any::<bool>()).prop_map(|(to, which, v2)| MStep::Deliver { to, which, v2 }),
         1 => (0..n, 0..n).prop_map(|(from, to)| MStep::Sync { from, to }),
     ]
@@ -285,6 +289,8 @@ impl Prop for Lww {
             }
         }
         let mut truth = Truth { ops: BTreeMap::new(), inner: BTreeMap::new() };
+        // nested maps held by reference on replicas that never free them (skip_gc)
+        let mut held: Vec<(usize, yrs::MapRef, String)> = Vec::new();
         let keyname = |c: u8, k: u8| -> String {
             if c == 2 {
                 XML_ATTR_KEYS[k as usize % 3].to_string()
@@ -342,6 +348,40 @@ impl Prop for Lww {
                                     truth.inner.insert(val.clone(), inner_vals);
                                 }
                             }
+                        }
+                    }
+                    truth.check(&w, &w.reps[r], &format!("author {}", r), &when, st)?;
+                }
+                MStep::Inner { r, c, key } => {
+                    let r = *r as usize % n;
+                    let c = *c % 2;
+                    let k = keyname(c, *key);
+                    let num = w.alloc.int();
+                    let mut wrote: Option<String> = None;
+                    {
+                        let rep = &w.reps[r];
+                        let mut txn = rep.doc.transact_mut();
+                        let target = if c == 0 {
+                            Some(rep.roots.map.clone())
+                        } else {
+                            match rep.roots.map.get(&txn, "nest") {
+                                Some(Out::YMap(m)) => Some(m),
+                                _ => None,
+                            }
+                        };
+                        if let Some(Out::YMap(inner)) = target.and_then(|m| m.get(&txn, &k)) {
+                            let tag = tag_of(&txn, &Out::YMap(inner.clone()));
+                            inner.insert(&mut txn, format!("extra{}", num), num as f64);
+                            if rep.cfg.skip_gc {
+                                held.push((r, inner.clone(), tag.clone()));
+                            }
+                            wrote = Some(tag);
+                        }
+                    }
+                    if w.register_local(r, vec![]).is_some() {
+                        if let Some(tag) = wrote {
+                            truth.inner.entry(tag).or_default().push(format!("{}", num as f64));
+                            st.hit("writes_into_nested_maps");
                         }
                     }
                     truth.check(&w, &w.reps[r], &format!("author {}", r), &when, st)?;
@@ -458,6 +498,31 @@ impl Prop for Lww {
             let vr = view(&w.reps[r]);
             ensure!(vr == v0, "c05/quiescent-disagreement", "after everything was delivered replica {} shows {:?} but replica 0 shows {:?}", r, vr, v0);
         }
+        // "removes its whole subtree", also for content that arrived in the subtree after (or
+        // concurrently with) the removal: everybody has deleted the same ids, and a nested map that
+        // is gone shows no entry to whoever still holds a reference to it
+        let ds0 = w.reps[0].doc.transact().snapshot().delete_set;
+        for r in 1..w.reps.len() {
+            let dsr = w.reps[r].doc.transact().snapshot().delete_set;
+            ensure!(
+                dsr == ds0,
+                "c05/subtree-survived/deleted-ids-differ",
+                "after everything was delivered replica {} has deleted {:?} but replica 0 has deleted {:?}: some entry of a removed or overwritten subtree is alive on one of them",
+                r,
+                dsr,
+                ds0
+            );
+        }
+        for (r, m, tag) in held.iter() {
+            let rep = &w.reps[*r];
+            let txn = rep.doc.transact();
+            let still_there = view(rep).values().any(|t| t == tag);
+            if !still_there {
+                let alive: Vec<String> = m.iter(&txn).map(|(k, _)| k.to_string()).collect();
+                ensure!(alive.is_empty(), "c05/subtree-survived", "replica {}: nested map {} has been removed or overwritten, but a reference to it still shows the entries {:?}", r, tag, alive);
+                st.hit("held_references_to_removed_nested_maps");
+            }
+        }
         Ok(())
     }
 }
@@ -466,7 +531,7 @@ pub fn property() -> Property {
     Property {
         id: "C05",
         level: "exploration",
-        rule: "2..3/4 author replicas performing 4..26/44 single-operation transactions: set(unique number or nested map with unique marker) / remove / clear on 3 keys of a root map, of a nested map and of the attributes of an XML element, interleaved with causal deliveries and syncs (so the happened-before relation between operations is exactly the harness' received-set bookkeeping); after every step the touched author, and a passive observer with an arbitrary schedule at its causally closed gap-free points, are checked per key against rules O1-O4 (visible value comes from a maximal received write; absent only with no write or a maximal removal; all maximal writes => present; a write that follows all other writes and was not seen by a removal wins; subtree of an overwritten/removed nested map unreachable); at quiescence all replicas agree.  Non-trivial = a key has >=2 concurrent maximal operations one of which is a removal, or a write survived a concurrent removal; distinct = distinct generated case".into(),
+        rule: "2..3/4 author replicas performing 4..26/44 single-operation transactions: set(unique number or nested map with unique marker) / remove / clear on 3 keys, and writes INTO the nested map a key currently shows (content arriving in a subtree that another replica removes or overwrites concurrently), of a root map, of a nested map and of the attributes of an XML element, interleaved with causal deliveries and syncs (so the happened-before relation between operations is exactly the harness' received-set bookkeeping); after every step the touched author, and a passive observer with an arbitrary schedule at its causally closed gap-free points, are checked per key against rules O1-O4 (visible value comes from a maximal received write; absent only with no write or a maximal removal; all maximal writes => present; a write that follows all other writes and was not seen by a removal wins; subtree of an overwritten/removed nested map unreachable); at quiescence all replicas agree, all replicas have deleted the same ids (an entry of a removed subtree that stays alive on one of them shows here), and references to removed nested maps held on skip_gc replicas show no entries.  Non-trivial = a key has >=2 concurrent maximal operations one of which is a removal, or a write survived a concurrent removal; distinct = distinct generated case".into(),
         assumptions: vec![
             "removals that found nothing are not operations".into(),
             "which of several concurrent writes wins is not fixed by this oracle (convergence is C01); a write that lost to another concurrent write need not survive the removal of the winner (DESIGN section 7)".into(),
